@@ -405,6 +405,52 @@ class krylov_counted:
 
 
 # =====================================================================================================
+# ownership of the initial state: a run must work on its own copy
+class impl_captured:
+    """Rebinds emu_sv.sv_backend.SVBackendImpl: records, right after construction, whether the evolving state shares
+    storage with config.initial_state (krylov_exp normalises its input IN PLACE)."""
+
+    def __enter__(self):
+        import emu_sv.sv_backend as sb
+        self.sb, self.orig = sb, sb.SVBackendImpl
+        self.aliased, self.count = [], 0
+
+        def make(config, data):
+            impl = self.orig(config, data)
+            self.count += 1
+            ini = getattr(config, "initial_state", None)
+            if ini is not None:
+                a, b = impl.state.data, ini.data
+                self.aliased.append(bool(a.data_ptr() == b.data_ptr()
+                                         or a.untyped_storage().data_ptr() == b.untyped_storage().data_ptr()))
+            return impl
+
+        sb.SVBackendImpl = make
+        return self
+
+    def __exit__(self, *a):
+        self.sb.SVBackendImpl = self.orig
+
+
+def ownership_check(ctx, case, cap, holders, what=""):
+    """holders: [(label, tensor now, bit-exact copy taken before the run)]"""
+    import torch
+    ok = True
+    if any(cap.aliased):
+        ctx.violation(f"the evolving state shares storage with config.initial_state{what} (the Krylov step normalises "
+                      "its input in place)", {"case": case, "finding_key": "initial-state-aliased"})
+        ok = False
+    for label, now, before in holders:
+        if not torch.equal(now, before):
+            dev = float((now - before).abs().max())
+            ctx.violation(f"{label} was modified by the run{what} (max change {dev:.3g}, trace/norm now "
+                          f"{complex(now.trace() if now.dim() == 2 else now.norm()):.6g})",
+                          {"case": case, "finding_key": "initial-state-mutated"})
+            ok = False
+    return ok
+
+
+# =====================================================================================================
 # falsifier: independent dense Liouvillian reference
 def liouvillian(H, Js):
     """Row-major vectorisation: vec(A X B) = (A kron B^T) vec(X).
@@ -527,7 +573,7 @@ def rand_op(rng, kind):
 
 def rand_rho(rng, n):
     d = 2 ** n
-    r = rng.choice([1, 2, d])
+    r = rng.choice([1, 2, d, d])
     A = np.array([[complex(rng.gauss(0, 1), rng.gauss(0, 1)) for _ in range(r)] for _ in range(d)])
     rho = A @ A.conj().T
     return rho / np.trace(rho)
@@ -548,7 +594,7 @@ def gen_hand_case(rng, thorough, n=None):
     ops = [rand_op(rng, rng.choice(["relax", "pump", "deph", "real", "gauss", "gauss"])) for _ in range(nops)]
     return {"kind": "hand", "prob": _ser_prob(prob), "ops": ops,
             "ktol": rng.choice([1e-10, 1e-10, 1e-8, 1e-6]),
-            "rho0_seed": rng.randrange(10 ** 6) if rng.random() < 0.4 else None,
+            "rho0_seed": rng.randrange(10 ** 6) if rng.random() < 0.6 else None,
             "time_dep_U": rng.random() < 0.25}
 
 
@@ -612,8 +658,10 @@ def run_hand_case(ctx, case):
         data = D.to_sequence_data(prob, lindblad_ops=[torch.tensor(o, dtype=torch.complex128) for o in ops2],
                                   U_of_t=U_of_t)
         nsteps = len(prob["times"]) - 1
+        user = kw["initial_state"].data if rho0 is not None else None
+        before = user.clone() if user is not None else None
         try:
-            with krylov_counted() as kc:
+            with krylov_counted() as kc, impl_captured() as cap:
                 res = emu_sv.SVBackend._run_from_sequence_data(data, cfg)
         except RecursionError as ex:
             kc.check(ctx, case, nsteps, case["ktol"], completed=False)
@@ -625,11 +673,30 @@ def run_hand_case(ctx, case):
             ctx.violation(f"emu-sv raised on a valid noisy sequence: {ex!r}", {"case": case, "finding_key": "e2e-raises"})
             return None
         kc.check(ctx, case, nsteps, case["ktol"], completed=True)
+        holders = [("config.initial_state.data", cfg.initial_state.data, before)] if user is not None else []
+        ownership_check(ctx, case, cap, holders)
+        res2 = None
+        if n <= 4 and not case.get("stiff"):       # the same config (and initial state object) must serve a second run
+            try:
+                with impl_captured() as cap2:
+                    res2 = emu_sv.SVBackend._run_from_sequence_data(data, cfg)
+            except Exception as ex:
+                ctx.violation(f"a second run with the same config raised: {ex!r}",
+                              {"case": case, "finding_key": "repeat-run-differs"})
+            else:
+                ownership_check(ctx, case, cap2, holders, " (second run with the same config)")
     if type(res.get_result("state", 1.0)).__name__ != "DensityMatrix":
         ctx.violation("a run with Lindblad operators did not produce a density matrix",
                       {"case": case, "finding_key": "not-density-matrix"})
         return None
-    return compare_run(ctx, case, res, prob, ops2, et, case["ktol"], rho0, U_of_t)
+    w = compare_run(ctx, case, res, prob, ops2, et, case["ktol"], rho0, U_of_t)
+    if res2 is not None:
+        w2 = compare_run(ctx, dict(case, repeat="second run with the same config object"), res2, prob, ops2, et,
+                         case["ktol"], rho0, U_of_t)
+        for k in ("state", "occ", "corr", "energy", "herm", "trace"):
+            w[k] = max(w[k], w2[k])
+        w["lmin"] = min(w["lmin"], w2["lmin"])
+    return w
 
 
 # ---- real pulser sequences with NoiseModel ------------------------------------------------------------
@@ -654,7 +721,10 @@ def gen_pulser_case(rng, thorough):
                "det": round(rng.uniform(-4.0, 4.0), 2), "phase": rng.choice([0.0, 0.0, round(rng.uniform(0, 3), 2)]),
                "local": (n > 1 and rng.random() < 0.3)} for _ in range(rng.choice([1, 2, 3]))]
     return {"kind": "pulser", "n": n, "spacing": rng.choice([5.5, 6.5, 8.0]), "pulses": pulses, "noise": nm,
-            "dt": rng.choice([5, 10]), "ktol": rng.choice([1e-10, 1e-8]), "target": rng.randrange(n)}
+            "dt": rng.choice([5, 10]), "ktol": rng.choice([1e-10, 1e-8]), "target": rng.randrange(n),
+            "rho0_seed": rng.randrange(10 ** 6) if rng.random() < 0.6 else None,
+            "n_traj": 3 if rng.random() < 0.4 else 1,     # with amp_sigma = 1e-9: numerically identical problems
+            "twice": rng.random() < 0.5}                  # run() twice on the same backend object
 
 
 def build_sequence(case):
@@ -692,33 +762,55 @@ def pulser_jump_ops(nm):
 
 
 def run_pulser_case(ctx, case):
+    import random as _random
     import pulser
+    import torch
     import emu_sv
 
     nm = dict(case["noise"])
+    n = case["n"]
     kw = {k: v for k, v in nm.items() if k.endswith("_rate")}
     if "eff_noise_rates" in nm:
         kw["eff_noise_rates"] = tuple(nm["eff_noise_rates"])
         kw["eff_noise_opers"] = tuple(np.array([[complex(*x) for x in r] for r in op], dtype=complex)
                                       for op in nm["eff_noise_opers"])
-    captured = []
+    ntraj = case.get("n_traj", 1)
+    ckw = {}
+    if ntraj > 1:
+        kw["amp_sigma"] = 1e-9          # makes pulser hand out several trajectories of (numerically) the same problem
+        ckw["n_trajectories"] = ntraj
+    rho0 = rand_rho(_random.Random(case["rho0_seed"]), n) if case.get("rho0_seed") is not None else None
+    user = None
+    if rho0 is not None:
+        user = torch.tensor(rho0, dtype=torch.complex128)
+        ckw["initial_state"] = emu_sv.DensityMatrix(user, gpu=False)
+    captured, per = [], []
     orig = emu_sv.SVBackend._run_from_sequence_data
 
     def cap(data, config):
         captured.append((data.omega.clone(), data.delta.clone(), data.phi.clone(), data.interaction_matrix,
                          list(data.target_times)))
-        return orig(data, config)
+        r = orig(data, config)
+        per.append(r)
+        return r
 
     et_req = [0.0, 0.5, 1.0]
+    nruns = 2 if case.get("twice") else 1
+    outs = []
     with warnings.catch_warnings():
         warnings.simplefilter("ignore")
         seq = build_sequence(case)
         cfg = emu_sv.SVConfig(dt=case["dt"], observables=_observables(et_req, energy=False), log_level=logging.CRITICAL,
-                              gpu=False, krylov_tolerance=case["ktol"], noise_model=pulser.NoiseModel(**kw))
+                              gpu=False, krylov_tolerance=case["ktol"], noise_model=pulser.NoiseModel(**kw), **ckw)
         emu_sv.SVBackend._run_from_sequence_data = staticmethod(cap)
         try:
-            with krylov_counted() as kc:
-                res = emu_sv.SVBackend(seq, config=cfg).run()
+            backend = emu_sv.SVBackend(seq, config=cfg)
+            held = getattr(backend._config, "initial_state", None)
+            held_before = held.data.clone() if held is not None else None
+            user_before = user.clone() if user is not None else None
+            for _ in range(nruns):
+                with krylov_counted() as kc, impl_captured() as icap:
+                    outs.append((backend.run(), kc, icap))
         except Exception as ex:
             ctx.violation(f"emu-sv raised on a valid noisy pulser sequence: {ex!r}",
                           {"case": case, "finding_key": "e2e-raises"})
@@ -727,13 +819,49 @@ def run_pulser_case(ctx, case):
             emu_sv.SVBackend._run_from_sequence_data = staticmethod(orig)
     om, de, ph, imat, times = captured[0]
     times = [float(t) for t in times]
-    kc.check(ctx, case, len(times) - 1, case["ktol"], completed=True)
-    prob = {"n": case["n"], "times": times, "omega": om.real.numpy(), "delta": de.real.numpy(),
+    nsteps = len(times) - 1
+    prob = {"n": n, "times": times, "omega": om.real.numpy(), "delta": de.real.numpy(),
             "phi": ph.real.numpy(), "U": None}
     total = times[-1]
     et = [t for t in et_req if any(abs(x / total - t) < 1e-9 for x in times)]
-    return compare_run(ctx, case, res, prob, pulser_jump_ops(nm), et, case["ktol"], None,
-                       U_of_t=lambda t: imat(t).numpy(), has_energy=False)
+    ops2 = pulser_jump_ops(nm)
+    U_of_t = lambda t: imat(t).numpy()  # noqa: E731
+    holders = []
+    if held is not None:
+        holders = [("the backend's config.initial_state.data", held.data, held_before),
+                   ("the user's initial state tensor", user, user_before)]
+    worst = None
+    for ri, (res, kc, icap) in enumerate(outs):
+        label = f" (run() number {ri + 1} on the same backend, {ntraj} trajectories)"
+        kc.check(ctx, case, nsteps * ntraj, case["ktol"], completed=True)
+        ownership_check(ctx, case, icap, holders if ri == len(outs) - 1 else [], label)
+    if len(per) != ntraj * nruns:
+        ctx.violation(f"{len(per)} trajectories were emulated for {nruns} run() calls with n_trajectories={ntraj}",
+                      {"case": case, "finding_key": "trajectory-count"})
+    # every emulated trajectory (all runs) against the reference: state, observables, trace, positivity
+    for ti, r in enumerate(per):
+        w = compare_run(ctx, dict(case, trajectory=ti), r, prob, ops2, et, case["ktol"] + (1e-8 if ntraj > 1 else 0.0),
+                        rho0, U_of_t=U_of_t, has_energy=False)
+        if worst is None:
+            worst = w
+        else:
+            for k in ("state", "occ", "corr", "energy", "herm", "trace"):
+                worst[k] = max(worst[k], w[k])
+            worst["lmin"] = min(worst["lmin"], w["lmin"])
+    # the aggregated (averaged) occupations and correlations returned by run()
+    ref, _ = reference(prob, ops2, rho0, U_of_t)
+    tol = (state_tol(case["ktol"] + (1e-8 if ntraj > 1 else 0.0), nsteps)) * 2 ** n
+    for ri, (res, _, _) in enumerate(outs):
+        for t in et:
+            k = min(range(nsteps + 1), key=lambda i: abs(times[i] / total - t))
+            e_occ = float(np.abs(np.array([float(x) for x in res.get_result("occupation", t)]) - occ_dm(ref[k], n)).max())
+            e_cor = float(np.abs(np.array(res.get_result("correlation_matrix", t), dtype=float) - corr_dm(ref[k], n)).max())
+            if max(e_occ, e_cor) > tol:
+                ctx.violation(f"occupation/correlation returned by run() number {ri + 1} (n_trajectories={ntraj}) differ "
+                              f"from the Lindblad reference at t={t} by {max(e_occ, e_cor):.3g} (bound {tol:.3g})",
+                              {"case": case, "finding_key": "run-average-differs"})
+                return worst
+    return worst
 
 
 def corpus_cases():
@@ -786,12 +914,78 @@ def e2e_stage(ctx, n_hand, n_pulser, n_stiff=0):
     ctx.extra["stiff_cases"] = stiff
 
 
+def ownership_stage(ctx, n_cases):
+    """Initial-state ownership on every kind of run: state-vector (noiseless) and density-matrix (noisy) runs, pure,
+    mixed and non-normalised initial states; the same config serves two runs."""
+    import random as _random
+    import torch
+    import emu_sv
+    from pulser.backend import StateResult
+
+    hist = {}
+    for i in range(n_cases):
+        rng = ctx.rng
+        kind = ["sv-normalised", "sv-non-normalised", "dm-pure", "dm-mixed", "dm-mixed"][i % 5]
+        n = rng.choice([1, 2, 3])
+        prob = D.random_problem(rng, n, rng.choice([2, 4]), dt=rng.choice([5.0, 10.0]))
+        seed = rng.randrange(10 ** 6)
+        case = {"kind": "ownership", "init": kind, "prob": _ser_prob(prob), "seed": seed}
+        r2 = _random.Random(seed)
+        d = 2 ** n
+        ops = []
+        if kind.startswith("sv"):
+            v = np.array([complex(r2.gauss(0, 1), r2.gauss(0, 1)) for _ in range(d)])
+            v = v / np.linalg.norm(v) * (1.0 if kind == "sv-normalised" else r2.choice([0.5, 2.0, 3.0]))
+            user = torch.tensor(v, dtype=torch.complex128)
+            ini = emu_sv.StateVector(user, gpu=False)
+        else:
+            A = np.array([[complex(r2.gauss(0, 1), r2.gauss(0, 1)) for _ in range(1 if kind == "dm-pure" else d)]
+                          for _ in range(d)])
+            rho = A @ A.conj().T
+            rho = rho / np.trace(rho)
+            user = torch.tensor(rho, dtype=torch.complex128)
+            ini = emu_sv.DensityMatrix(user, gpu=False)
+            ops = [torch.tensor(np.array([[0, 0.8], [0, 0]], dtype=complex))]
+        before = user.clone()
+        finals = []
+        ok = True
+        with warnings.catch_warnings():
+            warnings.simplefilter("ignore")
+            cfg = emu_sv.SVConfig(observables=[StateResult(evaluation_times=[1.0])], log_level=logging.CRITICAL,
+                                  gpu=False, initial_state=ini)
+            data = D.to_sequence_data(prob, lindblad_ops=ops)
+            for rep in range(2):
+                try:
+                    with impl_captured() as cap:
+                        res = emu_sv.SVBackend._run_from_sequence_data(data, cfg)
+                except Exception as ex:
+                    ctx.violation(f"emu-sv raised on a valid run with an initial state ({kind}): {ex!r}",
+                                  {"case": case, "finding_key": "e2e-raises"})
+                    ok = False
+                    break
+                finals.append(res.get_result("state", 1.0).data.clone())
+                ok &= ownership_check(ctx, case, cap, [("config.initial_state.data", cfg.initial_state.data, before),
+                                                       ("the user's initial state tensor", user, before)],
+                                      f" (run {rep + 1}, {kind})")
+        if len(finals) == 2 and float((finals[0] - finals[1]).abs().max()) > 1e-12:
+            ctx.violation(f"two runs with the same config and initial state ({kind}) end in different states "
+                          f"(max difference {float((finals[0] - finals[1]).abs().max()):.3g})",
+                          {"case": case, "finding_key": "repeat-run-differs"})
+            ok = False
+        hist[kind] = hist.get(kind, 0) + 1
+        ctx.count_case({"kind": "ownership", "init": kind, "n": n, "ok": ok,
+                        "purity": float(np.real(np.trace(rho @ rho))) if not kind.startswith("sv") else None},
+                       nontrivial=kind in ("sv-non-normalised", "dm-mixed"))
+    ctx.extra["ownership_cases"] = hist
+
+
 def run(ctx):
     common.coq_make(["Model/SvLindRun.vo"])
     common.standard_proof_stage(ctx, "C16", ["Properties/C16.vo"])
     op_stage(ctx, ctx.n(24, 500))
     run_stage(ctx, ctx.n(30, 600))
     source_shape_stage(ctx)
+    ownership_stage(ctx, ctx.n(15, 150))
     e2e_stage(ctx, ctx.n(22, 320), ctx.n(12, 120), ctx.n(8, 60))
     ctx.rule = ("(a) operator cases N=1..3(4): integer/half-integer drives, Gaussian-integer jump operators and "
                 "density matrices (75% Hermitian), dyadic dt, real and prescribed-phase paths; non-trivial = at least "
@@ -804,7 +998,11 @@ def run(ctx):
                 "rebound to count: exactly one wrapper call per step, no direct krylov_exp_impl call. (d) stiff cases "
                 "(4-5 atoms, interactions x3..x300, steps of 100-200 ns, tolerance 1e-10, weak or strong noise): every "
                 "run either refuses (RecursionError, counted in stiff_cases) or meets the same accuracy and "
-                "physicality bounds.")
+                "physicality bounds. (e) ownership of the initial state: after every run (state-vector and density-matrix, "
+                "pure / mixed full-rank / non-normalised initial states) config.initial_state and the user's tensor are "
+                "bit-identical to before and share no storage with the evolving state; hand-built cases run twice with "
+                "the same config, pulser cases also call run() twice on one backend and use n_trajectories=3 with "
+                "amp_sigma=1e-9; every emulated trajectory and the averaged observables are compared with the reference.")
     ctx.trusted_base += ["hand-written Model/SvLindRun.v (validated by the two correspondences on every run) on top of "
                          "Model/SvHam.v lind_matmul (C06's model, re-validated here through dm_op)",
                          "dense reference: numpy kron + scipy.linalg.expm; drive samples of pulser runs are taken from "
